@@ -142,4 +142,10 @@ def ASt.waitsFor (s : ASt) (b : Aid) : Option Nat :=
   | some (.cv c) => ((s.cv c).find? (fun x => x.issuer = b)).map (·.mutex)
   | none => none
 
+/-- observable summary of the abstract machine after a history, in the shape of `observe` (C06/Model.lean):
+(waiters of c, owner of m, blocked lockers of m, answers) -/
+def aobserve (es : List CEv) (c m : Nat) : Option (List Aid × Option Aid × List Aid × Outs) :=
+  (arun ASt.init es).toOption.map fun r =>
+    ((r.1.cv c).map (·.issuer), (r.1.mx m).owner, (r.1.mx m).queue.map (·.1), r.2)
+
 end SgVerif.C06
